@@ -172,6 +172,9 @@ func (g *DefaultValidator) ValidateExperiment(instance, oldInst *experimentsv1be
 		if err := g.validateParameters(instance.Spec.Parameters); err != nil {
 			allErrs = append(allErrs, err...)
 		}
+		if err := g.validateParametersReferences(instance); err != nil {
+			allErrs = append(allErrs, err...)
+		}
 	}
 
 	if err := g.validateMetricsCollector(instance); err != nil {
@@ -303,6 +306,33 @@ func (g *DefaultValidator) validateParameters(parameters []experimentsv1beta1.Pa
 						param.FeasibleSpace, fmt.Sprintf("feasibleSpace .max, .min and .step is not supported for parameterType: %v", param.ParameterType)))
 				}
 			}
+		}
+	}
+
+	return allErrs
+}
+
+// validateParametersReferences checks that every parameter of the search space is used by the Trial template.
+// The Trial generator requires each parameter assignment to be consumed by exactly one of the trialParameters.
+func (g *DefaultValidator) validateParametersReferences(instance *experimentsv1beta1.Experiment) field.ErrorList {
+	var allErrs field.ErrorList
+	if instance.Spec.TrialTemplate == nil {
+		return allErrs
+	}
+
+	// References to the Trial metadata, e.g. ${trialSpec.Name}, never consume a parameter assignment
+	metaRefRegex := regexp.MustCompile(consts.TrialTemplateMetaReplaceFormatRegex)
+	trialParametersRefs := make(map[string]bool)
+	for _, trialParameter := range instance.Spec.TrialTemplate.TrialParameters {
+		if !metaRefRegex.MatchString(trialParameter.Reference) {
+			trialParametersRefs[trialParameter.Reference] = true
+		}
+	}
+
+	for i, parameter := range instance.Spec.Parameters {
+		if _, ok := trialParametersRefs[parameter.Name]; !ok {
+			allErrs = append(allErrs, field.Invalid(parametersPath.Index(i).Child("name"), parameter.Name,
+				fmt.Sprintf("parameter %v is not referenced in spec.trialTemplate.trialParameters: %v", parameter.Name, instance.Spec.TrialTemplate.TrialParameters)))
 		}
 	}
 
